@@ -23,6 +23,14 @@ def one(job):
             text = ('[{"a": {"x": 1, "y": "s", "z": null}, "b": {"y": 2.5, "x": "t", "w": []}, '
                     '"c": [{"x": null, "y": 1, "k": {"x": 1, "y": 2, "u": 1}}]}]')
             argv_opts = ["--merge", "number_2"]
+        elif idx % 6 == 2:
+            # literal values that differ only in letter case, several per field: any order that is not total over the
+            # strings (a case-insensitive sort key, set iteration) shows under different hash seeds
+            words = r.sample(["active", "get", "ok", "north", "id", "json"], 3)
+            vals = [f(w) for w in words for f in (str.lower, str.upper, str.capitalize)]
+            r.shuffle(vals)
+            text = json.dumps([{"status": v, "tags": r.sample(vals, 3)} for v in vals])
+            argv_opts = r.choice([[], ["-f", "pydantic"], ["-f", "dataclasses", "-s", "nested"]]) + ["--max-strings-literals", "16"]
         else:
             samples = g.samples(depth=4, nmax=4)
             text = json.dumps(samples)
@@ -31,6 +39,17 @@ def one(job):
                                               ["-f", "dataclasses", "-s", "nested"], ["--datetime"], ["--max-strings-literals", "3"]])
         sb.write("in.json", text)
         argv = ["-m", "Root", "in.json"] + argv_opts
+        if idx % 6 == 4 and idx > len(CORPUS_FILES):
+            # the samples spread over several files that ONE pattern argument collects: the order in which the tool itself
+            # enumerates the files must not depend on the hash seed either
+            try:
+                docs = json.loads(text)
+            except ValueError:
+                docs = None
+            if isinstance(docs, list) and len(docs) >= 2:
+                for j, d in enumerate(docs):
+                    sb.write(f"part_{'abcdefgh'[j % 8]}{j}.json", json.dumps(d))
+                argv = ["-m", "Root", "part_*.json"] + argv_opts
         outs = {}
         first_err = None
         for s in range(nseeds):
